@@ -492,9 +492,9 @@ func init() {
 	register(&PropSpec{
 		ID:          "C16",
 		Explanation: "Decides the structural clause 'no unchecked dynamic-type assumption on client-derived values in parse/plan code, and the per-entry recover barriers exist': every non-comma-ok type assertion in the parse/plan region is dominated by a successful comma-ok test or has a construction-fixed dynamic type; (*table).insert and (*DB).mapPartitionRequest install recover() first and spawn nothing below; a rejected entry still advances the WAL offset.",
-		NotDecided:  []string{"panics from index/nil/arithmetic inside sqlparser, goexpr, bytemap on arbitrary bytes (no barrier at sql.Parse, and none is added)", "semantic validation of arities beyond what produces a dynamic-type assumption", "replication stall if mapPartitionRequest panics (reading note: the recovered path sends no result; no panicking input was found)"},
+		NotDecided:  []string{"panics from index/nil/arithmetic inside sqlparser, goexpr, bytemap on arbitrary bytes (no barrier at sql.Parse, and none is added)", "semantic validation of arities beyond what produces a dynamic-type assumption", "panics in goroutines without a barrier other than the two per-entry workers"},
 		Assumptions: []string{"the parse/plan region is closed under static calls and the listed plan-time interface methods"},
-		Rules:       []func(*Ctx){ruleC16a, ruleC16b, ruleC16c, func(c *Ctx) { ruleC16d(c, "C16.d") }},
+		Rules:       []func(*Ctx){ruleC16a, ruleC16b, ruleC16c, func(c *Ctx) { ruleC16d(c, "C16.d") }, func(c *Ctx) { ruleC16e(c, "C16.e") }},
 	})
 }
 
@@ -717,8 +717,9 @@ func ruleC16d(c *Ctx, rule string) {
 				top = top.Parent()
 			}
 			inst := stableName(fn) + " .(" + typeStr(ta.AssertedType) + ") on Eval of " + describeOperand(call.Call.Value)
+			_, ownBarrier := hasRecoverBarrier(top)
 			switch {
-			case barrier[stableName(top)]:
+			case barrier[stableName(top)] || ownBarrier:
 				c.ok(rule, inst, ta.Pos(), "inside the extent of a per-entry recover barrier")
 			case typeStr(ta.AssertedType) == "bool" && nilGuarded(ta, call):
 				c.ok(rule, inst, ta.Pos(), "nil-guarded .(bool) on a boolean predicate")
@@ -802,4 +803,114 @@ func allCallersPassNil(c *Ctx, fn *ssa.Function, recvExpr ssa.Value) bool {
 		}
 	}
 	return n > 0
+}
+
+// ruleC16e: a worker that recovers from a panic still fulfils its protocol
+// obligation.
+func ruleC16e(c *Ctx, rule string) {
+	c.describe(rule, "dom (pairing across the recover path): (*DB).mapPartitionRequest sends exactly one result on 'mapped' per request — on every normal path to a return, and in the deferred recover() closure whenever a panic was recovered — because reducePartitionRequests waits for one result per queued request")
+	fn := c.need(rule, "(*z.DB).mapPartitionRequest")
+	if fn == nil {
+		return
+	}
+	var ch *ssa.Parameter
+	for _, p := range fn.Params {
+		if typeStr(p.Type()) == "chan *z.partitionsResult" {
+			ch = p
+		}
+	}
+	if ch == nil {
+		c.undecided(rule, "mapPartitionRequest result channel", fn.Pos(), "no parameter of type chan *partitionsResult")
+		return
+	}
+	// normal paths
+	var sends []ssa.Instruction
+	for _, in := range instrs(fn) {
+		if sd, ok := in.(*ssa.Send); ok {
+			isCh := sd.Chan == ssa.Value(ch)
+			if u, isU := sd.Chan.(*ssa.UnOp); isU && sameCellParam(u.X, ch) {
+				isCh = true
+			}
+			if isCh {
+				sends = append(sends, sd)
+			}
+		}
+	}
+	okNormal := len(sends) > 0
+	for _, b := range fn.Blocks {
+		if b == fn.Recover || len(b.Instrs) == 0 {
+			continue
+		}
+		if r, isR := b.Instrs[len(b.Instrs)-1].(*ssa.Return); isR {
+			avoid := blockSet{}
+			for _, s := range sends {
+				avoid[s.Block()] = true
+			}
+			if !avoid[b] && reach([]*ssa.BasicBlock{fn.Blocks[0]}, avoid, nil)[b] {
+				okNormal = false
+			}
+			_ = r
+		}
+	}
+	c.check(rule, "mapPartitionRequest reports a result on every normal path", fn.Pos(), okNormal, "every return is preceded by mapped <- result", "a request can complete without a result being sent: the reducer waits for it forever")
+	// recovered path
+	d, has := hasRecoverBarrier(fn)
+	okRec := false
+	if has {
+		var target *ssa.Function
+		if mc, ok := d.(*ssa.Defer).Call.Value.(*ssa.MakeClosure); ok {
+			target, _ = mc.Fn.(*ssa.Function)
+		}
+		if target != nil {
+			c.touch(target)
+			// the send must be on the p != nil side of the recover test
+			var rec ssa.Value
+			for _, call := range calls(target) {
+				if isCall(call, "builtin recover") {
+					rec, _ = call.(ssa.Value)
+				}
+			}
+			for _, in := range instrs(target) {
+				sd, ok := in.(*ssa.Send)
+				if !ok {
+					continue
+				}
+				if fv, isFV := sd.Chan.(*ssa.FreeVar); !isFV || cellRoot(fv) != ssa.Value(ch) {
+					if u, isU := sd.Chan.(*ssa.UnOp); !isU || !sameCellParam(u.X, ch) {
+						continue
+					}
+				}
+				// every path from the closure's entry on which recover() != nil reaches the send
+				all := true
+				for _, ci := range findIfs(target, func(v ssa.Value) bool {
+					x, _, ok := nilTest(atom{v, true})
+					return ok && rec != nil && x == rec
+				}) {
+					_, nn, _ := nilTest(atom{ci.v, true})
+					s := ci.succFor(nn)
+					// from s, a return must not be reachable without passing the send
+					avoid := blockSet{sd.Block(): true}
+					for b := range reach([]*ssa.BasicBlock{s}, avoid, nil) {
+						if _, isR := b.Instrs[len(b.Instrs)-1].(*ssa.Return); isR {
+							all = false
+						}
+					}
+					if avoid[s] {
+						all = true
+					}
+				}
+				okRec = all
+			}
+		}
+	}
+	c.check(rule, "mapPartitionRequest reports a result after a recovered panic", fn.Pos(), okRec, "the deferred recover() closure sends on mapped whenever it recovered", "after a recovered panic no result is sent for the request: reducePartitionRequests blocks on <-mapped and no later entry reaches any follower (one oddly typed point stalls replication)")
+}
+
+func sameCellParam(addr ssa.Value, p *ssa.Parameter) bool {
+	rootv := cellRoot(addr)
+	if al, ok := rootv.(*ssa.Alloc); ok {
+		sts := cellStores(al.Parent(), al)
+		return len(sts) == 1 && sts[0].Val == ssa.Value(p)
+	}
+	return rootv == ssa.Value(p)
 }
